@@ -637,6 +637,60 @@ def exCfg : Cfg := ⟨some "adm", "prim", 8⟩
 def exAdmin (m n : String) (k : Option String) : Event :=
   .request ⟨.post, .root, some (bearerPrefixBytes ++ [97, 100, 109]), some .cbor, none, .rpc m ⟨some n, k, none⟩, "gen"⟩
 
+/-! ## Time of check = time of use (a body that arrives later) -/
+
+/-- api/mod.rs as it is now: the handler side authorises again when the body has been buffered —
+`execute_rpc` (helpers inlined) contains `let p = state.authorize(scope, bearer_token(headers))?;`,
+its entry points take the buffered `Bytes`, and exactly that principal reaches every `dispatch(..)`.
+This is what `handleSplit` (decision at `finish`, nothing carried over from header time) models; a
+principal taken from request extensions, a default on error, or no second call flips a fact here. -/
+theorem authorize_at_execution_frozen :
+    executeAuthorizesAtExecution = true ∧ handlerRunsAfterBody = true ∧
+    executeForwardsAuthorizedPrincipal = true := by
+  decide
+
+/-- **revocation_cuts_inflight.** A request whose head arrived in ANY earlier state `sBegin` — with a key
+that was valid then — and whose body arrives in a state `sNow` in which its token is neither the admin
+key nor the key bound to the addressed database is answered with the uniform rejection and changes
+nothing: no request finishing after a revocation / rotation is served under the old key. -/
+theorem revocation_cuts_inflight (cfg : Cfg) (sBegin sNow : State) (r : Request) (n a : String)
+    (hv : r.verb = .post) (ht : r.target = .db n) (hadm : cfg.admin = some a)
+    (hna : bearerToken r.auth ≠ some a)
+    (hnb : lookup sNow.bound n = none ∨ bearerToken r.auth = none ∨ lookup sNow.bound n ≠ bearerToken r.auth) :
+    handleSplit cfg sBegin sNow r = (sNow, rejected r) := by
+  unfold handleSplit
+  rw [hv, ht]
+  simp only
+  cases authorizeState cfg sBegin (.database n) (bearerToken r.auth) with
+  | error e => rfl
+  | ok p => exact rejected_of_wrong_token cfg sNow r n a hv ht hadm hna hnb
+
+/-- … in particular after an acknowledged `db.remove_api_key n`, whatever was in flight. -/
+theorem revocation_cuts_inflight_after_removal (cfg : Cfg) (s sBegin : State) (ra r : Request) (n a m : String)
+    (k : Option String) (ro : Option Bool) (b : Bool)
+    (hadm : cfg.admin = some a)
+    (hbody : ra.body = .rpc m ⟨some n, k, ro⟩)
+    (hrep : (handle cfg s ra).2.reply = .root (.removed b))
+    (hv : r.verb = .post) (ht : r.target = .db n) (htok : bearerToken r.auth ≠ some a) :
+    handleSplit cfg sBegin (handle cfg s ra).1 r = ((handle cfg s ra).1, rejected r) := by
+  have hnow := revocation_immediate_http cfg s ra r n a m k ro b hadm hbody hrep hv ht htok
+  unfold handleSplit
+  rw [hv, ht]
+  simp only
+  cases authorizeState cfg sBegin (.database n) (bearerToken r.auth) with
+  | error e => rfl
+  | ok p => exact hnow
+
+/-- non-vacuity: the head of `doc.get` arrives with the key of `a`, the key is revoked, the body arrives:
+rejected — while the same request finished before the revocation reaches the handler -/
+example :
+    let s₀ := run exCfg (init exCfg) [exAdmin "db.create" "a" (some "ka")]
+    let s₁ := run exCfg s₀ [exAdmin "db.remove_api_key" "a" none]
+    let r : Request := ⟨.post, .db "a", some (bearerPrefixBytes ++ [107, 97]), some .cbor, none, .rpc "doc.get" ⟨none, none, none⟩, "g"⟩
+    (handleSplit exCfg s₀ s₁ r).2 = rejected r ∧
+    (handleSplit exCfg s₀ s₀ r).2.reply = .handler "a" "DocGet" "document::get" .read none := by
+  decide +kernel
+
 /-! ## Acknowledged ⇒ durable (storage faults, retries, crashes) -/
 
 /-- state.rs, as it is now: on the way from `set_db_api_key` through `store_api_key` and
